@@ -13,6 +13,18 @@ and a walk never modifies a cell that existed before it started (frame property)
 namespace CV.Template.Docs
 open CV.Template CV.Template.Sites
 
+/-- the code that allocates, copies and writes `interp.Options` cells is the code the heap model was written against:
+    `Options.clone` copies the pointer (`Interpolate: o.Interpolate`), `extends` and `ApplyInclude` walk with a clone,
+    `toOptions` allocates the project's cell, and the **only** assignment to or through `Interpolate` in package loader
+    is `ApplyInclude`'s allocation of a fresh cell (`Heap.alloc`) — no write through an existing pointer (`Heap.write`) -/
+theorem options_cells_are_modelled :
+    Gen.c07_interpolate_cells =
+      ["extends.go: call opts.clone()",
+       "include.go: call options.clone()",
+       "include.go: loadOptions.Interpolate = &interp.Options{ Substitute: options.Interpolate.Substitute, LookupValue: config.LookupEnv, TypeCastMapping: options.Interpolate.TypeCastMapping, }",
+       "loader.go: field Interpolate: o.Interpolate",
+       "loader.go: field Interpolate: &interp.Options{ Substitute: template.Substitute, LookupValue: configDetails.LookupEnv, TypeCastMapping: interpolateTypeCastMapping, }"] := rfl
+
 /-- what a walk guarantees about the heap and its outputs -/
 structure WalkOK (h : Heap) (env : GoMap) (r : Heap × List Out) (spec : List Out) : Prop where
   out : r.2 = spec
